@@ -115,7 +115,7 @@ func expectEntry(e *deb.ArEntry, m ArMember, i int) error {
 
 var specC13 = Register(&Spec[ArCase]{
 	Prop: "C13", Name: "members",
-	Rule: "ar archives rendered by an independent writer from a member-list model: 0..8 members (1 archive in 40: a list of 2..8 short members 300 to 3000 times over, up to 24 000 members); names of 1..16 bytes over [A-Za-z0-9._+-] (16-byte class; one in six with a blank in front or inside, a tab at the end, a '/' inside, or a tail of one two-, three- or four-byte character - é, €, an ideograph, an emoji, NBSP, NEL, U+3000), optional GNU '/' terminator; one member in twelve with a negative timestamp, owner or group (signed decimal text, as ar writes a time before 1970 or the owner -1); mtime < 10^12, uid/gid < 10^6, mode up to 8 octal digits, each numeric column independently blank; data empty, 1 byte, odd, even, up to 8 KiB, or built from look-alike headers / the global magic / header terminators; one pad byte after odd sizes (also after the last member) - a newline, in one odd member of six a NUL, blank, 'x', '`' or 0xff; read through bytes.Reader or (1/4) through a conforming ReaderAt that returns io.EOF together with a read ending exactly at the end of the input. Oracle: LoadAr + Next() return exactly the model sequence (Name, Timestamp, OwnerID, GroupID, FileMode, Size), io.ReadAll(Data) == data; a member read half-way before the iterator advances finishes with the right bytes; a second iterator opened on the same ReaderAt and advanced one step behind sees the same members; after exhaustion Next() returns io.EOF repeatedly and every earlier Data reader still yields its bytes after Seek(0,0) and via ReadAt at generated offsets. Non-trivial: >= 2 members, or a zero-length / odd-length / 16-byte-name member; distinct by archive.",
+	Rule: "ar archives rendered by an independent writer from a member-list model: 0..8 members (1 archive in 40: a list of 2..8 short members 300 to 3000 times over, up to 24 000 members); names of 1..16 bytes over [A-Za-z0-9._+-] (16-byte class; one in six with a blank in front or inside, a tab at the end, a '/' inside, or a tail of one two-, three- or four-byte character - é, €, an ideograph, an emoji, NBSP, NEL, U+3000), optional GNU '/' terminator; one in eight with a timestamp at a mark a narrower integer would wrap at (2^31, 2^32, 2^33, ten nines, +0..3), one member in twelve with a negative timestamp, owner or group (signed decimal text, as ar writes a time before 1970 or the owner -1); mtime < 10^12, uid/gid < 10^6, mode up to 8 octal digits, each numeric column independently blank; data empty, 1 byte, odd, even, up to 8 KiB, or built from look-alike headers / the global magic / header terminators; one pad byte after odd sizes (also after the last member) - a newline, in one odd member of six a NUL, blank, 'x', '`' or 0xff; read through bytes.Reader or (1/4) through a conforming ReaderAt that returns io.EOF together with a read ending exactly at the end of the input. Oracle: LoadAr + Next() return exactly the model sequence (Name, Timestamp, OwnerID, GroupID, FileMode, Size), io.ReadAll(Data) == data; a member read half-way before the iterator advances finishes with the right bytes; a second iterator opened on the same ReaderAt and advanced one step behind sees the same members; after exhaustion Next() returns io.EOF repeatedly and every earlier Data reader still yields its bytes after Seek(0,0) and via ReadAt at generated offsets. Non-trivial: >= 2 members, or a zero-length / odd-length / 16-byte-name member; distinct by archive.",
 	Check: func(c ArCase, r *Recorder) error {
 		nt := len(c.Members) >= 2
 		cl := []string{}
